@@ -58,11 +58,18 @@ fn field_attr(recvs: &[Recv], scope: &str, f: &Field, k: usize) -> String {
         With::Closure => {
             if let Ty::Sc(sc) = f.ty {
                 let body = if f.foreign { format!("Foreign({})", with_body(sc)) } else { with_body(sc).to_string() };
-                opts.push(format!("with = |m: &syn::Meta| <{} as ::darling::FromMeta>::from_meta(m).map(|v| {})", rust_ty(recvs, &f.ty), body));
+                // (the parameter's type is left to inference two times out of three: the derive has to give the closure
+                // a signature to be checked against)
+                // (... and calls a method on it first, so that nothing in the closure itself says what `m` is)
+                if k % 3 == 0 {
+                    opts.push(format!("with = |m: &syn::Meta| <{} as ::darling::FromMeta>::from_meta(m).map(|v| {})", rust_ty(recvs, &f.ty), body));
+                } else {
+                    opts.push(format!("with = |m| {{ let _ = m.path(); <{} as ::darling::FromMeta>::from_meta(m).map(|v| {}) }}", rust_ty(recvs, &f.ty), body));
+                }
             } else if let Ty::Opt(inner) = &f.ty {
                 // a custom converter on an optional field: absent it is still `None`
                 if let Ty::Sc(sc) = **inner {
-                    opts.push(format!("with = |m: &syn::Meta| <{} as ::darling::FromMeta>::from_meta(m).map(|o| o.map(|v| {}))", rust_ty(recvs, &f.ty), with_body(sc)));
+                    opts.push(format!("with = |m{}| <{} as ::darling::FromMeta>::from_meta(m).map(|o| o.map(|v| {}))", if k % 3 == 0 { ": &syn::Meta" } else { "" }, rust_ty(recvs, &f.ty), with_body(sc)));
                 }
             }
         }
@@ -482,6 +489,9 @@ pub fn emit_dispatch(r: &Recv, out: &mut String) {
         Trait::Field => {
             out.push_str(&format!(
                 "        ({id}, \"from_field\") => {{ let b = ::vf_support::parse_field(src)?; Ok(::vf_support::reply(<{name} as ::darling::FromField>::from_field(&b.value), b.shift)) }}\n"
+            ));
+            out.push_str(&format!(
+                "        ({id}, \"from_field_grouped\") => {{ let b = ::vf_support::parse_field_grouped(src)?; Ok(::vf_support::reply(<{name} as ::darling::FromField>::from_field(&b.value), b.shift)) }}\n"
             ));
             out.push_str(&format!(
                 "        ({id}, \"from_tuple_field\") => {{ let b = ::vf_support::parse_tuple_field(src)?; Ok(::vf_support::reply(<{name} as ::darling::FromField>::from_field(&b.value), b.shift)) }}\n"
